@@ -373,7 +373,13 @@ def ledger_case(acc, rng, variant, tmpdir, case):
     cli = "adm_ledger" if rng.random() < 0.5 else None
     if cli:
         acc.count("verifications_through_the_command_line")
-    ok, out, exc = run_cmd(do_verify_attestation, opts, cli)
+    with env.odd_environ(rng) as oe:
+        with env.odd_environ(rng) as oe:
+            ok, out, exc = run_cmd(do_verify_attestation, opts, cli)
+        if oe.vars:
+            acc.count("verifications_with_terminal_or_locale_variables_exported")
+    if oe.vars:
+        acc.count("verifications_with_terminal_or_locale_variables_exported")
     acc.evaluations += 1
     acc.distinct.add("ledger|%s|%s|%s" % (form, file_form, variant))
     label = "ledger:%s" % variant
